@@ -9,10 +9,13 @@ import (
 	"math"
 	"os"
 	"os/exec"
+	"runtime"
 	"sort"
 	"strings"
 	"sync"
+	"sync/atomic"
 	"testing"
+	"time"
 
 	"github.com/honeycombio/refinery/collect"
 	"github.com/honeycombio/refinery/config"
@@ -49,10 +52,17 @@ type c10Case struct {
 	FamLen int    `json:"fam_len,omitempty"`
 	// Sens: single-byte sensitivity. c10SensPairs pairs of ids of SensLen bytes that differ in exactly one byte
 	// at a position in [SensLo, SensLen) are decided at every rate 2..65.
-	Sens     bool   `json:"sens,omitempty"`
-	SensLo   int    `json:"sens_lo,omitempty"`
-	SensLen  int    `json:"sens_len,omitempty"`
-	SensSeed uint64 `json:"sens_seed,omitempty"`
+	// Overlap (stress relief only): a node configured at OverlapFrom is hot-reloaded to OverlapTo while another
+	// goroutine keeps asking it for decisions on c10OverlapIDs ids derived from OverlapSeed; the logger the node
+	// writes to parks every log call made during that reload until the readers are done or have had their chance.
+	Overlap     bool   `json:"overlap,omitempty"`
+	OverlapFrom uint64 `json:"overlap_from,omitempty"`
+	OverlapTo   uint64 `json:"overlap_to,omitempty"`
+	OverlapSeed uint64 `json:"overlap_seed,omitempty"`
+	Sens        bool   `json:"sens,omitempty"`
+	SensLo      int    `json:"sens_lo,omitempty"`
+	SensLen     int    `json:"sens_len,omitempty"`
+	SensSeed    uint64 `json:"sens_seed,omitempty"`
 }
 
 const c10StatN = 40000
@@ -142,6 +152,117 @@ func (n *c10Node) reload(rate uint64) {
 func (n *c10Node) decide(id string) (uint, bool) {
 	r, k, _ := n.s.GetSampleRate(id)
 	return r, k
+}
+
+// c10ParkLogger is a logger.Logger whose entries, while armed, park inside Logf: they announce themselves on
+// parked and wait for a token on release. No message text is looked at: every log call the node makes during the
+// armed reload is a parking point.
+type c10ParkLogger struct {
+	armed   atomic.Bool
+	parked  chan struct{}
+	release chan struct{}
+}
+
+type c10ParkEntry struct{ l *c10ParkLogger }
+
+func (l *c10ParkLogger) Debug() logger.Entry                          { return c10ParkEntry{l} }
+func (l *c10ParkLogger) Info() logger.Entry                           { return c10ParkEntry{l} }
+func (l *c10ParkLogger) Warn() logger.Entry                           { return c10ParkEntry{l} }
+func (l *c10ParkLogger) Error() logger.Entry                          { return c10ParkEntry{l} }
+func (l *c10ParkLogger) SetLevel(string) error                        { return nil }
+func (e c10ParkEntry) WithField(string, interface{}) logger.Entry     { return e }
+func (e c10ParkEntry) WithString(string, string) logger.Entry         { return e }
+func (e c10ParkEntry) WithFields(map[string]interface{}) logger.Entry { return e }
+func (e c10ParkEntry) Logf(string, ...interface{}) {
+	if e.l.armed.Load() {
+		e.l.parked <- struct{}{}
+		<-e.l.release
+	}
+}
+
+const (
+	c10OverlapIDs    = 300
+	c10OverlapYields = 30 // chances given to the readers per parked log call before the logger is released
+)
+
+type c10Triple struct {
+	id   string
+	rate uint
+	keep bool
+}
+
+// c10RunOverlap executes the overlap step with real goroutines and returns every (id, rate, keep) the readers
+// got, how many of them returned while a log call of the reload was parked, and how often the logger parked.
+// Nothing here depends on timing for its verdict: the triples are judged afterwards, each on its own.
+func c10RunOverlap(from, to, seed uint64) (triples []c10Triple, duringPark int, parks int) {
+	lg := &c10ParkLogger{parked: make(chan struct{}), release: make(chan struct{})}
+	cfg := &config.MockConfig{StressRelief: config.StressReliefConfig{Mode: "always", SamplingRate: from, ActivationLevel: 90, DeactivationLevel: 75}}
+	node := &c10Node{cfg: cfg, s: &collect.StressRelief{Config: cfg, Logger: lg}}
+	node.s.UpdateFromConfig() // start: not armed
+
+	ids := make([]string, c10OverlapIDs)
+	x := seed
+	for i := range ids {
+		ids[i] = fmt.Sprintf("%016x%016x", c10Splitmix(&x), c10Splitmix(&x))
+	}
+
+	lg.armed.Store(true)
+	reloadDone := make(chan struct{})
+	go func() {
+		defer close(reloadDone)
+		node.reload(to)
+	}()
+
+	var mu sync.Mutex
+	var inPark atomic.Bool
+	readersDone := make(chan struct{})
+	startReaders := func() {
+		go func() {
+			defer close(readersDone)
+			for _, id := range ids {
+				r, k := node.decide(id)
+				mu.Lock()
+				triples = append(triples, c10Triple{id, r, k})
+				if inPark.Load() {
+					duringPark++
+				}
+				mu.Unlock()
+			}
+		}()
+	}
+	started := false
+	for {
+		select {
+		case <-lg.parked:
+			parks++
+			inPark.Store(true)
+			if !started {
+				started = true
+				startReaders()
+			}
+			// give the readers their chance: on an intact node they are blocked on the node's lock until the
+			// reload returns, so this loop simply runs out; it never decides anything.
+		wait:
+			for i := 0; i < c10OverlapYields; i++ {
+				select {
+				case <-readersDone:
+					break wait
+				default:
+				}
+				runtime.Gosched()
+				time.Sleep(20 * time.Microsecond)
+			}
+			inPark.Store(false)
+			lg.release <- struct{}{}
+		case <-reloadDone:
+			lg.armed.Store(false)
+			if !started {
+				startReaders()
+			}
+			<-readersDone
+			return triples, duringPark, parks
+		}
+	}
 }
 
 // ---------------------------------------------------------------- second process
@@ -359,6 +480,16 @@ func genC10(t *rapid.T) c10Case {
 			c.FamLen = rapid.SampledFrom(c10FamLens).Draw(t, "famlen")
 		}
 	}
+	if c.Kind == "stress" && rapid.IntRange(0, 7).Draw(t, "overlap") == 6 {
+		c.Overlap = true
+		small := rapid.SampledFrom([]uint64{1, 2, 3, 4}).Draw(t, "ovsmall")
+		big := rapid.SampledFrom([]uint64{2, 3, 10, 1000, 1 << 40}).Draw(t, "ovbig")
+		c.OverlapFrom, c.OverlapTo = small, big
+		if rapid.Bool().Draw(t, "ovswap") {
+			c.OverlapFrom, c.OverlapTo = big, small
+		}
+		c.OverlapSeed = rapid.Uint64().Draw(t, "ovseed")
+	}
 	if rapid.IntRange(0, 5).Draw(t, "sens") == 4 {
 		cl := rapid.SampledFrom(c10SensClasses).Draw(t, "sensclass")
 		c.Sens, c.SensLo, c.SensLen, c.SensSeed = true, cl[0], cl[1], rapid.Uint64().Draw(t, "sensseed")
@@ -542,6 +673,41 @@ func execC10(c c10Case) vkit.Result {
 		}
 	}
 
+	if c.Overlap && c.Kind == "stress" && c.OverlapFrom >= 1 && c.OverlapTo >= 1 {
+		res.Class("overlap-step")
+		res.NonTrivial = true
+		triples, duringPark, parks := c10RunOverlap(c.OverlapFrom, c.OverlapTo, c.OverlapSeed)
+		if parks == 0 {
+			res.Class("overlap:logger-never-parked")
+		}
+		if duringPark > 0 {
+			res.Class("overlap:reader-returned-while-logger-parked")
+		} else {
+			res.Class("overlap:readers-waited-for-the-reload")
+		}
+		// every decision must be the decision of a node that simply runs at the rate reported with it
+		fresh := map[uint]c10Decider{}
+		bad := 0
+		for _, tr := range triples {
+			want := uint64(tr.rate)
+			if want != c.OverlapFrom && want != c.OverlapTo {
+				res.Violate("C10/stress/overlap/unknown-rate", "reload %d -> %d: a decision reported rate %d", c.OverlapFrom, c.OverlapTo, tr.rate)
+				continue
+			}
+			d := fresh[tr.rate]
+			if d == nil {
+				d = c10New("stress", uint64(tr.rate))
+				fresh[tr.rate] = d
+			}
+			if r, k := d(tr.id); r != tr.rate || k != tr.keep {
+				bad++
+				if bad == 1 {
+					res.Violate("C10/stress/overlap/decision-inconsistent-with-reported-rate", "during a hot reload %d -> %d a reader got (rate %d, keep %v) for id %q; a node running at rate %d says keep %v (%d of %d decisions returned while a log call of the reload was parked)", c.OverlapFrom, c.OverlapTo, tr.rate, tr.keep, tr.id, tr.rate, k, duringPark, len(triples))
+				}
+			}
+		}
+	}
+
 	if c.Sens && c.SensLen > 0 && c.SensLen <= 4096 && c.SensLo >= 0 && c.SensLo < c.SensLen {
 		res.Class(fmt.Sprintf("sens-pos=[%d,%d)", c.SensLo, c.SensLen))
 		res.NonTrivial = true
@@ -585,12 +751,13 @@ func TestC10(t *testing.T) {
 	defer func() { c10Child().stop() }()
 	vkit.Run(t, vkit.Spec[c10Case]{
 		ID:   "C10",
-		Rule: "rapid-generated (kind, trace-id list, rate list): ids are hex-16/32, arbitrary UTF-8, empty; rates 1..2^31 (DeterministicSampler) / 1..2^64-1 (StressRelief.GetSampleRate) biased to small values and powers of two +-1. Every (id, rate) is decided twice by one instance, by a second fresh instance and by a separately started process (the test binary re-executed in child mode); for stress relief a long-lived node is additionally configured with a generated history of rates and hot-reloaded (UpdateFromConfig on the same instance) to every drawn rate, and must agree with a fresh node at that rate; nesting is checked for every id and every pair of drawn rates; about 1 in 20 cases additionally measure the kept fraction over 40000 distinct generated ids at N in {2,3,10,100,10000} against max(6 sigma, Bernstein 1e-10), the ids being random hex or a family sharing one common prefix or suffix of 32/48/64/100/256/1024 bytes plus a short unique part; about 1 in 6 cases check single-byte sensitivity: 32 pairs of ids (16..1024 bytes) differing in one byte at a drawn position class (incl. positions >= 64) are decided at all rates 2..65 and must not all have identical decision vectors (probability 0.288^32 = 5e-18 for a hash of the whole id). Non-trivial: some rate > 1 (or a statistical sub-run). Distinct = distinct case JSON.",
+		Rule: "rapid-generated (kind, trace-id list, rate list): ids are hex-16/32, arbitrary UTF-8, empty; rates 1..2^31 (DeterministicSampler) / 1..2^64-1 (StressRelief.GetSampleRate) biased to small values and powers of two +-1. Every (id, rate) is decided twice by one instance, by a second fresh instance and by a separately started process (the test binary re-executed in child mode); for stress relief a long-lived node is additionally configured with a generated history of rates and hot-reloaded (UpdateFromConfig on the same instance) to every drawn rate, and must agree with a fresh node at that rate; about 1 stress case in 8 adds an overlap step with real goroutines: the node's logger parks every log call made during a rate-changing reload while a second goroutine asks for 300 decisions, and every returned (rate, keep) must be what a node running at that reported rate decides; nesting is checked for every id and every pair of drawn rates; about 1 in 20 cases additionally measure the kept fraction over 40000 distinct generated ids at N in {2,3,10,100,10000} against max(6 sigma, Bernstein 1e-10), the ids being random hex or a family sharing one common prefix or suffix of 32/48/64/100/256/1024 bytes plus a short unique part; about 1 in 6 cases check single-byte sensitivity: 32 pairs of ids (16..1024 bytes) differing in one byte at a drawn position class (incl. positions >= 64) are decided at all rates 2..65 and must not all have identical decision vectors (probability 0.288^32 = 5e-18 for a hash of the whole id). Non-trivial: some rate > 1 (or a statistical sub-run). Distinct = distinct case JSON.",
 		Assumptions: []string{
 			"the concrete hash function, salt and seed are not pinned: only purity, nesting, reported rate and kept fraction are asserted",
 			"'every node and every run' is observed as: two instances in one process plus one separately started process of the same binary on the same machine",
 			"rates stay inside the property's quantifier (deterministic: 1..2^31, stress relief: 1..2^64-1); SampleRate 0 is rejected by config validation and not generated",
 			"StressRelief is configured through config.MockConfig + UpdateFromConfig (no Start: the sampling decision does not depend on the monitor goroutine)",
+			"overlap step: the parked logger is released after the readers finished or after 30 scheduler yields + 20us sleeps per log call; this only decides how much overlap is observed (class overlap:reader-returned-while-logger-parked), never the verdict, which is taken from the returned triples alone",
 			"kept-fraction ids come from a harness-owned splitmix64 stream seeded by the case, so a case's verdict is reproducible",
 			"'a fixed hash of its trace ID' is read as a hash of the whole id (any length, trace ids are arbitrary strings): the 1/N fraction is also required of families of distinct ids with a long common prefix/suffix, and no byte position may be ignored",
 		},
